@@ -369,6 +369,7 @@ fn miri_scenario(prop: &str) -> Option<&'static str> {
     match prop {
         "C01" => Some("capacity_race"),
         "C02" => Some("value_refs"),
+        "C06" => Some("concurrent_removes"),
         "C08" => Some("value_lifecycle"),
         "C17" => Some("metrics_many_threads"),
         "C18" => Some("first_use_hashing"),
@@ -390,11 +391,16 @@ fn miri_cmd(scenario: &str, seeds: &str) -> std::process::Command {
 
 fn miri_stage(prop: &str, tier: &str, seed: u64) -> (serde_json::Value, usize) {
     let Some(scenario) = miri_scenario(prop) else { return (serde_json::Value::Null, 0) };
+    if scenario == "concurrent_removes" && tier != "thorough" {
+        // len() walks 256 shard locks: minutes under Miri - thorough tier only
+        return (serde_json::json!({"scenario": scenario, "status": "thorough tier only"}), 0);
+    }
     if std::env::var("DST_NO_MIRI").is_ok() {
         return (serde_json::json!({"scenario": scenario, "status": "skipped (DST_NO_MIRI)"}), 0);
     }
     let n: u64 = std::env::var("DST_MIRI_SEEDS").ok().and_then(|s| s.parse().ok()).unwrap_or(match (tier, scenario) {
         ("thorough", "metrics_many_threads") => 96, // 27 threads: ~15 s per seed
+        ("thorough", "concurrent_removes") => 64,
         ("thorough", _) => 256,
         (_, "metrics_many_threads") => 16,
         (_, "value_refs") => 64,
